@@ -9,6 +9,7 @@ import (
 	"fmt"
 	"io"
 	"os"
+	"strconv"
 	"strings"
 	"syscall"
 	"time"
@@ -74,6 +75,8 @@ func recByEntropy(ent []byte, lang int64, extra Event) (out string, err error) {
 	return
 }
 
+var lastCheckNow string
+
 // recCheck calls CheckMnemonic and IsMnemonicValid on the same input.
 func recCheck(in string, lang int64, extra Event) (err error) {
 	lang = narrow(lang)
@@ -85,11 +88,22 @@ func recCheck(in string, lang int64, extra Event) (err error) {
 		valid = bip39.IsMnemonicValid(in, bip39.Language(lang))
 	})
 	e := Event{"op": "Check", "in": units(string(before)), "lang": langField(lang), "err": errRec(err), "valid": valid, "in_same": in == string(before)}
+	now := strconv.FormatBool(valid) + "/"
+	if err != nil {
+		now += err.Error()
+	}
+	if !concMode {
+		lastCheckNow = now
+	}
+	if was, ok := extra["echo_of"]; ok { // the same call made again later: did it say the same thing?
+		e["echo_same"] = was == now
+		delete(extra, "echo_of")
+	}
 	emit(merge(o.into(e), extra))
 	keepErr(err)
 	if len(before) < 2000 {
 		cp := string(before)
-		ex := Event{"cls": "echo"}
+		ex := Event{"cls": "echo", "echo_of": now}
 		if g, ok := extra["gen"]; ok {
 			ex["gen"] = g
 		}
@@ -449,6 +463,53 @@ func (b byteScriptReader) ReadByte() (byte, error) {
 	return 0, err
 }
 
+// seekSource wraps a scripted source in a type that ALSO offers io.ReaderAt, io.Seeker and io.WriterTo over the
+// bytes it has handed out and will hand out (a *bytes.Reader, a *strings.Reader, an *os.File on a regular file
+// are such readers).  Only Read consumes the stream and only Read is a delivery (logged); a library that probes
+// for the other interfaces and takes bytes through them is taking bytes the source did not deliver to the call.
+type seekSource struct {
+	*scriptReader
+	block []byte // the stream: what Read hands out, in order
+	cur   int
+}
+
+func (s *seekSource) ensure(n int) {
+	for len(s.block) < n {
+		s.block = append(s.block, s.scriptReader.fill.bytes(256)...)
+	}
+}
+
+func (s *seekSource) Read(p []byte) (int, error) {
+	s.ensure(s.cur + len(p))
+	n := copy(p, s.block[s.cur:s.cur+len(p)])
+	s.cur += n
+	emit(Event{"op": "Read", "asked": len(p), "gave": n, "bytes": ints(p[:n]), "errkind": ""})
+	return n, nil
+}
+
+func (s *seekSource) ReadAt(p []byte, off int64) (int, error) {
+	s.ensure(int(off) + len(p))
+	return copy(p, s.block[off:]), nil
+}
+
+func (s *seekSource) Seek(off int64, whence int) (int64, error) {
+	switch whence {
+	case io.SeekStart:
+		s.cur = int(off)
+	case io.SeekCurrent:
+		s.cur += int(off)
+	case io.SeekEnd:
+		s.ensure(4096)
+		s.cur = len(s.block) + int(off)
+	}
+	if s.cur < 0 {
+		s.cur = 0
+	}
+	return int64(s.cur), nil
+}
+
+func (s *seekSource) Len() int { s.ensure(s.cur + 4096); return len(s.block) - s.cur }
+
 // wrapSource: the scripted source as the library sees it - plain, as io.ByteReader, or behind a *bufio.Reader
 // of minimal size (16 bytes: bufio reads ahead, the Read events then show what bufio asked for)
 func wrapSource(s *scriptReader, how string) io.Reader {
@@ -457,6 +518,8 @@ func wrapSource(s *scriptReader, how string) io.Reader {
 		return byteScriptReader{s}
 	case "bufio":
 		return bufio.NewReaderSize(s, 16)
+	case "seekable":
+		return &seekSource{scriptReader: s}
 	}
 	return s
 }
